@@ -304,8 +304,75 @@ func NumEdges(t any) int { return gctx(t).FieldByName("backEdges").Len() }
 
 /* ----- monitors that only the executor can observe ----- */
 
-func FootprintBegin()                    {}
-func FootprintEnd(allow string) int      { return 0 }
+// Footprint: under the executor every store to an object that existed at FootprintBegin is logged
+// (exact).  Natively the listed tensors are snapshotted and compared at FootprintEnd (state diff).
+type snap struct {
+	t              any
+	data           []float64
+	dims           []int
+	gctx, grad     uintptr
+	tracked, dirty bool
+	edges          int
+}
+
+var snaps [][]snap
+
+func takeSnap(t any) snap {
+	g := tstruct(t).FieldByName("gctx")
+	s := snap{t: t, data: Flat(t), dims: Dims(t), gctx: g.Pointer()}
+	if !g.IsNil() {
+		s.tracked, s.dirty, s.edges = Tracked(t), Dirty(t), NumEdges(t)
+		gr := g.Elem().FieldByName("gradient")
+		if !gr.IsNil() {
+			s.grad = gr.Elem().Pointer()
+		}
+	}
+	return s
+}
+
+func FootprintBegin(objs ...any) {
+	var ss []snap
+	for _, o := range objs {
+		if o == nil {
+			continue
+		}
+		v := reflect.ValueOf(o)
+		if v.Kind() == reflect.Ptr && !v.IsNil() {
+			ss = append(ss, takeSnap(o))
+		}
+	}
+	snaps = append(snaps, ss)
+}
+
+func FootprintEnd(allow string) int {
+	ss := snaps[len(snaps)-1]
+	snaps = snaps[:len(snaps)-1]
+	ok := func(tag string) bool { return strings.Contains(","+allow+",", ","+tag+",") }
+	n := 0
+	for _, s := range ss {
+		now := takeSnap(s.t)
+		if !reflect.DeepEqual(now.data, s.data) || !reflect.DeepEqual(now.dims, s.dims) {
+			n++
+		}
+		if now.gctx != s.gctx {
+			if !ok("CPUTensor.gctx") {
+				n++
+			}
+			continue
+		}
+		if now.grad != s.grad && !ok("GradContext.gradient") {
+			n++
+		}
+		if now.dirty != s.dirty && !ok("GradContext.bpdirty") {
+			n++
+		}
+		if now.tracked != s.tracked || now.edges != s.edges {
+			n++
+		}
+	}
+	return n
+}
+
 func ClosureCallsReset()                 {}
 func ClosureCallsMax(pkg string) int     { return 0 }
 func DrawCount() int                     { return -1 }
@@ -326,6 +393,26 @@ func TimedOK(f func(), seconds int) bool {
 		return true
 	case <-time.After(time.Duration(seconds) * time.Second):
 		return false
+	}
+}
+
+// Concurrently runs f(0..n-1) in n goroutines released together (native replay, under -race); the
+// symbolic executor skips it: there the sequential write-footprint decides.
+func Concurrently(n int, f func(i int)) {
+	start := make(chan struct{})
+	done := make(chan any, n)
+	for i := 0; i < n; i++ {
+		go func(i int) {
+			defer func() { done <- recover() }()
+			<-start
+			f(i)
+		}(i)
+	}
+	close(start)
+	for i := 0; i < n; i++ {
+		if r := <-done; r != nil {
+			fail("assert", "concurrent work does not panic", fmt.Sprint(r))
+		}
 	}
 }
 
